@@ -634,7 +634,7 @@ class RegistryModel(object):
     }
 
     def __init__(self):
-        import pyg_base._drange as D
+        import pyg_base as D               # public names only: calendar, Calendar and the registry dict `calendars`
         self.D = D
         D.calendars.clear()          # the registry is module-global: every history starts from an empty one
         self.model = {}              # key -> dict(hols=set of ordinals, weekends=[candidate weekend lists], small=bool)
